@@ -178,7 +178,8 @@ def check_pair(ctx, a, a_full, b, b_rows, ops, sub, layout_key):
                 {**sub, "mode": mode, "chrom": chrom},
             )
     # into_ranges
-    for col, default, func, fname in (("gene", "-", None, "none"), ("val", -1.0, None, "none"), ("val", -1.0, max, "max")):
+    # a supplied summary that is not the identity on one element: a single hit still yields the value itself
+    for col, default, func, fname in (("gene", "-", None, "none"), ("val", -1.0, None, "none"), ("val", -1.0, max, "max"), ("val", -1.0, _count100, "count")):
         if ops == "core" and col != "gene":
             continue
         ci = 3 if col == "gene" else 4
@@ -206,6 +207,10 @@ def check_pair(ctx, a, a_full, b, b_rows, ops, sub, layout_key):
             {**sub, "column": col, "summary_func": fname},
         )
     return any_hit
+
+
+def _count100(vals):
+    return 100.0 * len(vals)
 
 
 def _values(res):
